@@ -409,6 +409,8 @@ def replay(payload):
     core.stage()
     if payload.get("family") == "E11":
         from . import e11_pyx
+        if any("-fsanitize" in c for c in payload.get("cflags") or ()):
+            return e11_pyx.replay(payload, None, cflags=tuple(payload["cflags"]))       # crash-only replay of a C36 rider case
         return e11_pyx.replay(payload, "refs", cflags=("-DCYTHON_REFNANNY=1",), refnanny=refnanny_so())
     name = payload["module"] if payload["module"].startswith("wit35") else "wit35_" + core.digest(payload["src"])[:8]
     rn = refnanny_so()
